@@ -70,6 +70,28 @@ Theorem euler_implicit_sysop_is_weighted_sum : forall x y i,
   (G euler_implicit_sysop y) x i = euler_implicit_A x i.
 Proof. unfold euler_implicit_A; vf. Qed.
 
+(* homogeneity (scale invariance): the step is linear in (u_n, v_n, a_n, bN, F) and the unknown -- multiplying them
+   all by s multiplies the right-hand side, the system row, the evaluation-point states and the returned state by s;
+   so s x solves the scaled system wherever x solves the original one, and the scaled step returns s times the state *)
+Local Notation GS f s y := (f I K C M dt beta gamma alpha (vscal s u_n) (vscal s v_n) (vscal s a_n) y (vscal s bN) (vscal s F)).
+Theorem euler_implicit_step_homogeneous : forall s x i,
+  GS euler_implicit_rhs s (vscal s x) i = s * G euler_implicit_rhs x i /\
+  (GS euler_implicit_sysop s (vscal s x)) (vscal s x) i = s * euler_implicit_A x i /\
+  GS euler_implicit_up_u s (vscal s x) i = s * G euler_implicit_up_u x i /\
+  GS euler_implicit_up_v s (vscal s x) i = s * G euler_implicit_up_v x i /\
+  GS euler_implicit_up_a s (vscal s x) i = s * G euler_implicit_up_a x i /\
+  GS euler_implicit_ev_ut s (vscal s x) i = s * G euler_implicit_ev_ut x i /\
+  GS euler_implicit_ev_vt s (vscal s x) i = s * G euler_implicit_ev_vt x i /\
+  GS euler_implicit_ev_at s (vscal s x) i = s * G euler_implicit_ev_at x i.
+Proof. intros; unfold euler_implicit_A; repeat split; vf. Qed.
+
+Theorem euler_implicit_scaled_solution : forall s x i,
+  euler_implicit_A x i = G euler_implicit_rhs x i ->
+  (GS euler_implicit_sysop s (vscal s x)) (vscal s x) i = GS euler_implicit_rhs s (vscal s x) i.
+Proof.
+  intros s x i H. destruct (euler_implicit_step_homogeneous s x i) as [E1 [E2 _]]. rewrite E1, E2, H. reflexivity.
+Qed.
+
 (* row i of the system minus row i of the right-hand side of _Solver_Apply_Neumann
    = residual of the equation of motion at dof i *)
 Theorem euler_implicit_eom_identity : forall x i,
@@ -114,6 +136,8 @@ Print Assumptions euler_implicit_update_rule.
 Print Assumptions euler_implicit_eval_consistent.
 Print Assumptions euler_implicit_coefs_are_derivatives.
 Print Assumptions euler_implicit_sysop_is_weighted_sum.
+Print Assumptions euler_implicit_step_homogeneous.
+Print Assumptions euler_implicit_scaled_solution.
 Print Assumptions euler_implicit_eom_identity.
 Print Assumptions euler_implicit_discrete_eom.
 Print Assumptions euler_implicit_newton_consistent.
